@@ -115,7 +115,9 @@ class CategoricalBox:
 
     @levels.setter
     def levels(self, value):
-        if value is not None and set(value) != set(self.data):  # pragma: no cover
+        # The data may lack some of the levels (e.g. a new data set with a few rows), but it
+        # cannot contain values that are not among the levels.
+        if value is not None and not set(self.data).issubset(set(value)):  # pragma: no cover
             raise ValueError("The levels beign assigned and the levels in the data differ")
         self._levels = value
 
